@@ -89,6 +89,45 @@ func runC12(c *Ctx) {
 		if n == 0 {
 			c.Bad(rRev, p.FuncKey(f)+":lookup", FirstPos(p, f), "the function does not test whether the dependency is running")
 		}
+		// the dependent is recorded under its registry (replica) name
+		for _, in := range FindInstrs(f, func(in ssa.Instruction) bool {
+			mu, ok := in.(*ssa.MapUpdate)
+			return ok && isPtrTo(mu.Value.Type(), s.Process)
+		}) {
+			mu := in.(*ssa.MapUpdate)
+			okKey := false
+			switch k := stripConv(mu.Key).(type) {
+			case *ssa.Call:
+				if sc := k.Call.StaticCallee(); sc != nil && s.IsProcessMethod(sc) {
+					okKey = true
+					for _, ret := range returnsOf(sc) {
+						if PathOf(ret.Results[0]).LastField() != s.FReplicaName {
+							okKey = false
+						}
+					}
+					if rv := ReceiverOf(&k.Call); rv == nil || !SameValue(rv, mu.Value) {
+						okKey = false
+					}
+				}
+			default:
+				if PathOf(mu.Key).LastField() == s.FReplicaName {
+					okKey = true
+				}
+			}
+			c.Check(okKey, rRev, p.FuncKey(f)+":dependent-key", p.InstrPos(in), "the dependent is recorded under its replica name", "dependents are recorded under a key that is not unique per instance (e.g. the process name shared by all replicas): replicas overwrite each other, only one is awaited and the dependency is stopped while the others are still alive")
+		}
+		// every registered instance is examined: from the start of an outer iteration the inner loop over depends_on is always reached
+		for _, l := range RangeLoops(f) {
+			if PathOf(l.Coll).LastField() != s.FRunning {
+				continue
+			}
+			isInner := func(in ssa.Instruction) bool {
+				rg, ok := in.(*ssa.Range)
+				return ok && PathOf(rg.X).LastField() == s.FDependsOn
+			}
+			vis := Reach([]Pt{{l.Body, 0}}, isInner, nil)
+			c.Check(!vis[l.If], rRev, p.FuncKey(f)+":every-instance-examined", p.InstrPos(l.If), "the dependencies of every registered instance are examined", "an extra condition skips some registered instances (e.g. those not in a running-class state, such as one that is terminating but still alive): their dependencies are stopped without waiting for them")
+		}
 	}
 	if len(revFns) == 0 {
 		c.Bad(rRev, "none", "", "no function builds a reverse-dependency map")
@@ -255,6 +294,7 @@ func runC12(c *Ctx) {
 		})
 	}
 	c.Floor(rJoin, 1, "ordered-shutdown goroutine")
+	s.checkDaemonRelease(c, "daemon-released-after-configured-stop")
 }
 
 func isRevDepMap(t types.Type, s *Sel) bool {
